@@ -115,8 +115,10 @@ class HarnessBuildError(Exception):
     """the correspondence harness does not compile against the current source"""
 
 
-def build_harness():
-    """rebuild the harness against /repo's current working tree (path dependency), hooks on."""
+def build_harness(release=False):
+    """rebuild the harness against /repo's current working tree (path dependency), hooks on.
+    release=True: the same harness in the release profile (no overflow checks, no debug assertions, opt-level 3)"""
+    rel = " --release" if release else ""
     with Lock("cargo"):
         env = dict(os.environ)
         env["CARGO_TARGET_DIR"] = os.path.join(BUILD, "cargo")
@@ -130,12 +132,12 @@ def build_harness():
             toml = open(os.path.join(hdir, "Cargo.toml")).read().replace('path = "/repo"', 'path = "%s"' % REPO)
             open(os.path.join(alt, "Cargo.toml"), "w").write(toml)
             hdir = alt
-        p = subprocess.run("cargo build --offline 2>&1", shell=True, cwd=hdir, env=env, capture_output=True, text=True)
+        p = subprocess.run("cargo build --offline%s 2>&1" % rel, shell=True, cwd=hdir, env=env, capture_output=True, text=True)
         hook = True
         if p.returncode != 0 and "verif_layout" in p.stdout:
             # the optional layout hook no longer compiles: fall back to API-only comparison
             env["RUSTFLAGS"] = ""
-            p = subprocess.run("cargo build --offline 2>&1", shell=True, cwd=hdir, env=env, capture_output=True, text=True)
+            p = subprocess.run("cargo build --offline%s 2>&1" % rel, shell=True, cwd=hdir, env=env, capture_output=True, text=True)
             hook = False
         if p.returncode != 0:
             log(p.stdout[-6000:])
@@ -147,7 +149,7 @@ def build_harness():
                 raise SystemExit(2)
             errs = [ln for ln in p.stdout.splitlines() if ln.startswith("error")]
             raise HarnessBuildError("\n".join(errs[:6]) or p.stdout[-1500:])
-        exe = os.path.join(BUILD, "cargo", "debug", "bsharness")
+        exe = os.path.join(BUILD, "cargo", "release" if release else "debug", "bsharness")
         # copy so that a concurrent rebuild cannot swap the binary under a running check
         return exe, hook
 
